@@ -1,11 +1,11 @@
 #!/bin/bash
 # usage: tools/regress.sh [pattern]  -- applies every seeded change (matching pattern) to /repo, runs the quick check of its
-# property, reverts; prints one line per change. A change whose meta.json says NOT DETECTED is expected to pass (rc=0).
+# property (or of the property named by check_with in its meta.json), reverts; prints one line per change. A change whose meta.json says NOT DETECTED is expected to pass (rc=0).
 cd /verif
 for d in seeded/${1:-*}/; do
   id=$(basename $d)
   [ -f $d/patch.diff ] || continue
-  prop=$(python3 -c "import json;print(json.load(open('$d/meta.json'))['property'])")
+  prop=$(python3 -c "import json;m=json.load(open('$d/meta.json'));print(m.get('check_with',m['property']))")
   expect=1; grep -q "NOT DETECTED" $d/meta.json && expect=0
   out=$(tools/mutant.sh $id $prop 2>&1 | grep -v "^KNOWN")
   rc=$(echo "$out" | grep -o "rc=[0-9]*" | head -1 | cut -d= -f2)
